@@ -1,38 +1,38 @@
 (* C05/Property.v — ONLY the property theorems, each closed by a lemma of Proofs*.v and followed by
    Print Assumptions.
 
-   Full statement of the property (kept visible):
-     for every valid model m, every built-in pass P (or sequence of passes), every input environment env
-     and result r:   computes m env r  ->  computes (P m) env r            (outputs position by position)
-     and the number/order of graph outputs and of non-initializer inputs is kept, and a checker-valid
-     model stays checker-valid.
-   `computes` quantifies over ALL operator semantics `interp` satisfying the hypotheses named in each
-   theorem (monotone in body denotations; Identity is the identity; trailing absent inputs ignored).
-   By C05_computes_deterministic the transformed model computes nothing else, so on every input on which
-   the original model has a value the two agree (OutOfFuel is excluded by the existential in `computes`).
+   Statement of the property: for every valid model m, every built-in pass P or sequence of passes, every input
+   environment env (values for the non-initializer inputs of the main graph) and result r:
+        computes m env r  ->  computes (P m) env r                 (outputs position by position)
+   the number/order of graph outputs and of non-initializer inputs is kept, and validity is kept.
+   `computes` quantifies over ALL operator semantics `interp` satisfying the hypotheses written in each theorem
+   (operators are functions of (op id, attributes with type, body denotations, inputs, #outputs) — the type of interp —
+   and monotone in their body denotations; Identity is the identity; trailing absent inputs are ignored; for DCE:
+   leading outputs do not depend on how many trailing outputs are requested; for constant lifting: Constant returns
+   its attribute).  By C05_computes_deterministic the transformed model computes nothing else; OutOfFuel is excluded by
+   the existential in `computes`.
 
-   Proved here (for all models, all inputs, all fuel): the semantic toolkit (fuel monotonicity,
-   determinism, the generic simulation C05_sim_refines which subsumes replace-uses / remove-dead /
-   rename-free reorder / lift-constant / eliminate-identity), and the passes
-     IdentityEliminationPass           C05_identity_elim_preserves        (full: main graph, subgraphs, functions)
-     DeduplicateInitializersPass       C05_dedup_preserves                (full; also the hashed variant: same model)
-     RemoveUnusedNodesPass             C05_dce_preserves_partial          (node/initializer removal + trailing-None
-                                        trimming; the schema-driven optional-output trimming is switched off (sc = []);
-                                        with it the statement is FALSE: C05_dce_batchnorm_refuted)
-     sequences of these                C05_sequence
-     LiftConstantsToInitializersPass   C05_lift_constants_preserves       (full, all parameter settings)
-     TopologicalSortPass               C05_reorder_preserves              (any graph-wise permutation: the relation the
-                                        harness checks on the implementation's result; exact order = C12)
-   Not proved in Coq (covered by the structural correspondence and the execution oracle only):
-     CommonSubexpressionEliminationPass as a whole (only C05_cse_step_preserves_partial; its key is not injective:
-     C05_cse_key_refuted), OutputFix,
-     LiftSubgraphInitializers, Add/RemoveInitializersFromInputs, Inline, NameFix/ClearMetadata/ShapeInference/
-     RemoveUnusedOpsets (frame-checked: they may only touch what is outside the term language), AddDefaultAttributes,
-     RemoveUnusedFunctions.
-   Checker-validity: C05_identity_elim_valid_refuted shows IdentityElimination does NOT keep "graph outputs
-   are defined in their graph". *)
+   Proved for all models / inputs / fuel:
+     toolkit        C05_den_fuel_monotone, C05_computes_deterministic, C05_sim_refines (replace-uses, remove-dead,
+                    eliminate-identity, lift-constant, trim-outputs as cases of one simulation), C05_alias_refines
+                    (insert Identity in front of outputs), C05_wfb_sound
+     passes         C05_identity_elim_preserves, C05_cse_preserves (whole pass; C05_cse_key_faithful), C05_dedup_preserves
+                    (plain and hashed), C05_dce_preserves (incl. schema-driven optional-output trimming; the
+                    BatchNormalization training_mode branch is excluded: C05_dce_batchnorm_refuted, known finding),
+                    C05_lift_constants_preserves, C05_output_fix_preserves, C05_lift_subgraph_inits_preserves,
+                    C05_add_inits_to_inputs_preserves, C05_remove_inits_from_inputs_preserves, C05_add_default_attributes_preserves,
+                    C05_reorder_preserves
+                    (TopologicalSort as the relation checked on the implementation's result; exact order = C12)
+     composition    C05_sequence: any sequence of the eleven passes above refines the model w.r.t. the non-initializer
+                    inputs, keeps them (identities and order), keeps the number of outputs and WF/NoOpFunc; each
+                    pass's own side condition (fresh counter above all identities, locality of outputs, ...) is required
+                    at the point where it runs.
+   Not proved in Coq (structural correspondence + execution oracle only): InlinePass (oracle only),
+   RemoveUnusedFunctionsPass (modelled and compared), NameFix / ClearMetadata / ShapeInference / RemoveUnusedOpsets
+   (the semantics does not mention names, metadata, shapes, opset imports: frame-checked: term before = term after). *)
 From Coq Require Import ZArith NArith List Bool Lia.
-From IRV Require Import Base.Exn Gen.C05Gen C05.Model C05.Proofs C05.Proofs2 C05.Proofs3 C05.Proofs4 C05.Proofs5 C05.Proofs6.
+From IRV Require Import Base.Exn Gen.C05Gen C05.Model C05.Proofs C05.Proofs2 C05.Proofs3 C05.Proofs4 C05.Proofs5 C05.Proofs6
+     C05.Proofs7 C05.Proofs8 C05.Proofs9 C05.Proofs10 C05.Proofs11 C05.Proofs12 C05.Proofs13.
 Import ListNotations.
 Open Scope N_scope.
 
@@ -56,8 +56,6 @@ Proof.
 Qed.
 Print Assumptions C05_computes_deterministic.
 
-(* the generic simulation: sem_replace_uses / sem_remove_dead / sem_insert(eliminate)_identity / sem_lift_constant
-   are its instances (cases VNode, VIdent, VConst, restriction to a closed live set L) *)
 Theorem C05_sim_refines :
   forall (T : Type) (absent : T) tensor_val interp,
     (forall op attrs subs subs' ins k r, Forall2 (sub_le T) subs subs' -> interp op attrs subs ins k = Some r -> interp op attrs subs' ins k = Some r) ->
@@ -69,54 +67,148 @@ Theorem C05_sim_refines :
 Proof. intros. eapply sim_refines; eauto. Qed.
 Print Assumptions C05_sim_refines.
 
-(* reordering (TopologicalSortPass, any permutation of node lists): the producer lookup only depends on
-   the set of nodes when every value has one producer *)
+Theorem C05_alias_refines :
+  forall (T : Type) (absent : T) tensor_val interp,
+    (forall op attrs subs subs' ins k r, Forall2 (sub_le T) subs subs' -> interp op attrs subs ins k = Some r -> interp op attrs subs' ins k = Some r) ->
+    (forall op attrs subs x, is_identity_op op = true -> interp op attrs subs [x] 1%nat = Some [x]) ->
+    forall s s' F formal, AliasSim s s' F formal ->
+    forall f aenv env v r, env_ok T formal env ->
+      den T absent tensor_val interp s f aenv env v = Some r -> den T absent tensor_val interp s' (2 * f) aenv env v = Some r.
+Proof. intros. eapply alias_refines; eauto. Qed.
+Print Assumptions C05_alias_refines.
+
 Theorem C05_wfb_sound : forall m, wfb m = true -> WF m.
 Proof. exact wfb_WF. Qed.
 Print Assumptions C05_wfb_sound.
 
-(* ---- passes.  Pres m m' = WF/NoOpFunc kept, formals kept, `computes m env r -> computes m' env r` for every env
-   over the formals, main-graph inputs kept (same values, same order), number of outputs kept. *)
+(* ---- passes.  Pres m m' (Proofs3): WF/NoOpFunc kept, formals kept, computes m env r -> computes m' env r for every env
+   over the formals, main-graph inputs kept, number of outputs kept.  The *_signature lemmas add: non-initializer inputs kept. *)
 Theorem C05_identity_elim_preserves :
   forall (T : Type) (absent : T) tensor_val interp,
     (forall op attrs subs subs' ins k r, Forall2 (sub_le T) subs subs' -> interp op attrs subs ins k = Some r -> interp op attrs subs' ins k = Some r) ->
     (forall op attrs subs x, is_identity_op op = true -> interp op attrs subs [x] 1%nat = Some [x]) ->
     (forall op attrs subs ins k, interp op attrs subs (ins ++ [absent]) k = interp op attrs subs ins k) ->
-    forall fuel m, WF m -> NoOpFunc m ->
-    forall env r, env_ok T (formal_of m) env -> computes absent tensor_val interp m env r ->
-                  computes absent tensor_val interp (identity_elim fuel m) env r.
-Proof. intros T a tv i H1 H2 H3 fuel m HW HN. exact (pr_comp T a tv i _ _ (identity_elim_pres T a tv i H1 H2 H3 fuel m HW HN)). Qed.
+    forall fuel m, WF m -> NoOpFunc m -> Pres T absent tensor_val interp m (identity_elim fuel m).
+Proof. intros. apply identity_elim_pres; assumption. Qed.
 Print Assumptions C05_identity_elim_preserves.
+
+Theorem C05_cse_key_faithful : forall a b, cse_attr_eqb a b = true -> a = b.
+Proof. exact cse_attr_eqb_eq. Qed.
+Print Assumptions C05_cse_key_faithful.
+
+Theorem C05_cse_key_distinguishes_attribute_type :
+  cse_attr_eqb ([97], AData TY_INT [1%Z]) ([97], AData TY_FLOAT [4607182418800017408%Z]) = false.
+Proof. exact cse_key_type_sensitive. Qed.
+Print Assumptions C05_cse_key_distinguishes_attribute_type.
+
+(* the whole pass, incl. the graph-output path (output aliasing, Identity insertion).  MainLocal: values produced by
+   main-graph nodes are not outputs of subgraphs/functions; FreshB: `fresh` is above every identity. *)
+Theorem C05_cse_preserves :
+  forall (T : Type) (absent : T) tensor_val interp,
+    (forall op attrs subs subs' ins k r, Forall2 (sub_le T) subs subs' -> interp op attrs subs ins k = Some r -> interp op attrs subs' ins k = Some r) ->
+    (forall op attrs subs x, is_identity_op op = true -> interp op attrs subs [x] 1%nat = Some [x]) ->
+    (forall op attrs subs ins k, interp op attrs subs (ins ++ [absent]) k = interp op attrs subs ins k) ->
+    forall size_limit m fresh, WF m -> NoOpFunc m -> MainLocal m -> FreshB m fresh ->
+    Pres T absent tensor_val interp m (fst (cse size_limit m fresh)).
+Proof. intros. apply cse_pres; assumption. Qed.
+Print Assumptions C05_cse_preserves.
 
 Theorem C05_dedup_preserves :
   forall (T : Type) (absent : T) tensor_val interp,
     (forall op attrs subs subs' ins k r, Forall2 (sub_le T) subs subs' -> interp op attrs subs ins k = Some r -> interp op attrs subs' ins k = Some r) ->
     (forall op attrs subs x, is_identity_op op = true -> interp op attrs subs [x] 1%nat = Some [x]) ->
     (forall op attrs subs ins k, interp op attrs subs (ins ++ [absent]) k = interp op attrs subs ins k) ->
-    (* keyeq = tensor_eqb: DeduplicateInitializersPass; keyeq = tensor_hash_eqb: DeduplicateHashedInitializersPass;
-       any key works because a merge is only made after the exact comparison *)
-    forall keyeq size_limit order m, WF m -> NoOpFunc m ->
-    forall env r, env_ok T (formal_of m) env -> computes absent tensor_val interp m env r ->
-                  computes absent tensor_val interp (dedup_inits keyeq size_limit order m) env r.
-Proof. intros T a tv i H1 H2 H3 ke sl order m HW HN. exact (pr_comp T a tv i _ _ (dedup_inits_pres T a tv i H1 H2 H3 ke sl order m HW HN)). Qed.
+    (* keyeq = tensor_eqb: DeduplicateInitializersPass; tensor_hash_eqb: the hashed variant; any key is sound
+       because a merge is only made after the exact comparison *)
+    forall keyeq size_limit order m, WF m -> NoOpFunc m -> Pres T absent tensor_val interp m (dedup_inits keyeq size_limit order m).
+Proof. intros. apply dedup_inits_pres; assumption. Qed.
 Print Assumptions C05_dedup_preserves.
 
-Theorem C05_dce_preserves_partial :
+(* RemoveUnusedNodesPass with the ONNX schema table `sc` of optional outputs.  Excluded (NoBNTraining): a
+   BatchNormalization node carrying training_mode — there the code changes the result (C05_dce_batchnorm_refuted). *)
+Theorem C05_dce_preserves :
   forall (T : Type) (absent : T) tensor_val interp,
     (forall op attrs subs subs' ins k r, Forall2 (sub_le T) subs subs' -> interp op attrs subs ins k = Some r -> interp op attrs subs' ins k = Some r) ->
     (forall op attrs subs x, is_identity_op op = true -> interp op attrs subs [x] 1%nat = Some [x]) ->
     (forall op attrs subs ins k, interp op attrs subs (ins ++ [absent]) k = interp op attrs subs ins k) ->
-    forall unnamed opset_graphs fuel m, WF m -> NoOpFunc m ->
-    (* no subgraph / function returns a main-graph initializer directly (part of "outputs are local") *)
+    forall sc,
+    (forall op attrs subs ins k k' outs, opt_flags sc op <> None -> (0 < k')%nat -> (k' <= k)%nat ->
+        interp op attrs subs ins k = Some outs ->
+        exists outs', interp op attrs subs ins k' = Some outs' /\ forall j, (j < k')%nat -> nth_error outs' j = nth_error outs j) ->
+    forall unnamed opset_graphs fuel m, wfb m = true -> outputs_localb m = true -> NoOpFunc m -> NoBNTraining m -> NoFuncOp sc m ->
+    (forall v, In v unnamed -> has_uses m v = false /\ is_graph_output m v = false) ->
     (forall o, In o (snd (frame m)) -> ~ In o (map fst (fst (frame m)))) ->
+    Pres T absent tensor_val interp m (dce sc unnamed opset_graphs fuel m).
+Proof. intros. eapply dce_schema_pres_checked; eauto. Qed.
+Print Assumptions C05_dce_preserves.
+
+Theorem C05_dce_batchnorm_refuted :
+  exists sc m k, option_map n_attrs (get_node m k) <> option_map n_attrs (get_node (dce sc [] [GMain] 12 m) k)
+                 /\ In k (g_outs (m_main (dce sc [] [GMain] 12 m))).
+Proof.
+  exists wit_dce_schema, wit_dce, 7. destruct dce_batchnorm_refuted as [A [B C]]. rewrite A, B, C. split; [discriminate | left; reflexivity].
+Qed.
+Print Assumptions C05_dce_batchnorm_refuted.
+
+Theorem C05_lift_constants_preserves :
+  forall (T : Type) (absent : T) tensor_val interp,
+    (forall op attrs subs subs' ins k r, Forall2 (sub_le T) subs subs' -> interp op attrs subs ins k = Some r -> interp op attrs subs' ins k = Some r) ->
+    (forall op attrs subs x, is_identity_op op = true -> interp op attrs subs [x] 1%nat = Some [x]) ->
+    (forall op attrs subs ins k, interp op attrs subs (ins ++ [absent]) k = interp op attrs subs ins k) ->
+    forall lift_all size_limit other,
+    (forall op k name a t subs, is_constant_op op = true -> lift_tensor lift_all size_limit other k name a = Some t ->
+                                interp op [(name, a)] subs [] 1%nat = Some [tensor_val t]) ->
+    forall fuel m fresh, WF m -> NoOpFunc m -> ConstOK m -> FreshOK m fresh ->
+    Pres T absent tensor_val interp m (fst (lift_constants fuel lift_all size_limit other m fresh)).
+Proof. intros. apply lift_constants_pres; assumption. Qed.
+Print Assumptions C05_lift_constants_preserves.
+
+Theorem C05_output_fix_preserves :
+  forall (T : Type) (absent : T) tensor_val interp,
+    (forall op attrs subs subs' ins k r, Forall2 (sub_le T) subs subs' -> interp op attrs subs ins k = Some r -> interp op attrs subs' ins k = Some r) ->
+    (forall op attrs subs x, is_identity_op op = true -> interp op attrs subs [x] 1%nat = Some [x]) ->
+    forall scopes m fresh, WF m -> NoOpFunc m -> FreshAll m fresh ->
+    Pres T absent tensor_val interp m (fst (output_fix scopes m fresh)).
+Proof. intros. apply output_fix_pres; assumption. Qed.
+Print Assumptions C05_output_fix_preserves.
+
+Theorem C05_lift_subgraph_inits_preserves :
+  forall (T : Type) (absent : T) tensor_val interp,
+    (forall op attrs subs subs' ins k r, Forall2 (sub_le T) subs subs' -> interp op attrs subs ins k = Some r -> interp op attrs subs' ins k = Some r) ->
+    (forall op attrs subs x, is_identity_op op = true -> interp op attrs subs [x] 1%nat = Some [x]) ->
+    (forall op attrs subs ins k, interp op attrs subs (ins ++ [absent]) k = interp op attrs subs ins k) ->
+    forall order m, NoDup (map fst (m_subs m)) -> WF m ->
     forall env r, env_ok T (formal_of m) env -> computes absent tensor_val interp m env r ->
-                  computes absent tensor_val interp (dce [] unnamed opset_graphs fuel m) env r.
-Proof. intros T a tv i H1 H2 H3 u ops fuel m HW HN Hfr. exact (pr_comp T a tv i _ _ (dce_pres T a tv i H1 H2 H3 u ops fuel m HW HN Hfr)). Qed.
-Print Assumptions C05_dce_preserves_partial.
+                  computes absent tensor_val interp (lift_subgraph_inits order m) env r.
+Proof. intros. eapply lift_subgraph_inits_computes; eauto. Qed.
+Print Assumptions C05_lift_subgraph_inits_preserves.
 
+(* the inputs of the main graph are not part of the semantics of a model: both conversions leave `computes` unchanged *)
+Theorem C05_add_inits_to_inputs_preserves :
+  forall (T : Type) (absent : T) tensor_val interp m env r,
+    computes absent tensor_val interp (add_inits_to_inputs [GMain] m) env r <-> computes absent tensor_val interp m env r.
+Proof. intros. apply add_inits_main_computes_iff. Qed.
+Print Assumptions C05_add_inits_to_inputs_preserves.
 
-(* ---- TopologicalSortPass (and any reordering): the relation the harness checks on the implementation's
-   output (reorder_modelb before after = true) implies the same results.  The exact order is property C12. *)
+Theorem C05_remove_inits_from_inputs_preserves :
+  forall (T : Type) (absent : T) tensor_val interp m env r,
+    computes absent tensor_val interp (remove_inits_from_inputs [GMain] m) env r <-> computes absent tensor_val interp m env r.
+Proof. intros. apply remove_inits_main_computes_iff. Qed.
+Print Assumptions C05_remove_inits_from_inputs_preserves.
+
+(* AddDefaultAttributesPass: tbl = schema defaults (read from onnx.defs by the harness: modelled, not verified) *)
+Theorem C05_add_default_attributes_preserves :
+  forall (T : Type) (absent : T) tensor_val interp,
+    (forall op attrs subs subs' ins k r, Forall2 (sub_le T) subs subs' -> interp op attrs subs ins k = Some r -> interp op attrs subs' ins k = Some r) ->
+    (forall op attrs subs x, is_identity_op op = true -> interp op attrs subs [x] 1%nat = Some [x]) ->
+    (forall op attrs subs ins k, interp op attrs subs (ins ++ [absent]) k = interp op attrs subs ins k) ->
+    forall tbl,
+    (forall op attrs aenv subs ins k,
+        interp op (resolve aenv (add_attrs attrs (op_defaults tbl op))) subs ins k = interp op (resolve aenv attrs) subs ins k) ->
+    forall m, WF m -> NoOpFunc m -> TblOK tbl m -> Pres T absent tensor_val interp m (add_default_attrs tbl m).
+Proof. intros. apply add_default_attrs_pres; assumption. Qed.
+Print Assumptions C05_add_default_attributes_preserves.
+
 Theorem C05_reorder_preserves :
   forall (T : Type) (absent : T) tensor_val interp,
     (forall op attrs subs subs' ins k r, Forall2 (sub_le T) subs subs' -> interp op attrs subs ins k = Some r -> interp op attrs subs' ins k = Some r) ->
@@ -127,100 +219,49 @@ Theorem C05_reorder_preserves :
 Proof. intros T a tv i H1 H2 H3 m m' HW HR. apply (reorder_computes T a tv i H1 H2 H3 m m' HW). apply reorder_modelb_sound. exact HR. Qed.
 Print Assumptions C05_reorder_preserves.
 
-Theorem C05_reorder_signature :
-  forall m m', reorder_modelb m m' = true ->
-    g_ins (m_main m') = g_ins (m_main m) /\ g_outs (m_main m') = g_outs (m_main m) /\ g_inits (m_main m') = g_inits (m_main m).
-Proof. intros m m' H. apply reorder_modelb_sound in H. destruct H as [[A [B [_ C]]] _ _]. auto. Qed.
-Print Assumptions C05_reorder_signature.
-
-(* ---- LiftConstantsToInitializersPass (all parameter settings).  `other` is the table of numpy conversions of the
-   value_int(s)/float(s)/string(s) forms handed to the model (modelled, not verified); the hypothesis on Constant says
-   "Constant returns its attribute", i.e. the tensor the pass extracts.  ConstOK = schema of Constant (no inputs, one
-   output); FreshOK = `fresh` is above every identity of the model. *)
-Theorem C05_lift_constants_preserves :
-  forall (T : Type) (absent : T) tensor_val interp,
-    (forall op attrs subs subs' ins k r, Forall2 (sub_le T) subs subs' -> interp op attrs subs ins k = Some r -> interp op attrs subs' ins k = Some r) ->
-    (forall op attrs subs x, is_identity_op op = true -> interp op attrs subs [x] 1%nat = Some [x]) ->
-    (forall op attrs subs ins k, interp op attrs subs (ins ++ [absent]) k = interp op attrs subs ins k) ->
-    forall lift_all size_limit other,
-    (forall op k name a t subs, is_constant_op op = true -> lift_tensor lift_all size_limit other k name a = Some t ->
-                                interp op [(name, a)] subs [] 1%nat = Some [tensor_val t]) ->
-    forall fuel m fresh, WF m -> NoOpFunc m -> ConstOK m -> FreshOK m fresh ->
-    forall env r, env_ok T (formal_of m) env -> computes absent tensor_val interp m env r ->
-                  computes absent tensor_val interp (fst (lift_constants fuel lift_all size_limit other m fresh)) env r.
+(* ---- signatures: the non-initializer inputs (identities, order) are kept *)
+Theorem C05_passes_signature :
+  (forall fuel m, noninit_inputs (identity_elim fuel m) = noninit_inputs m)
+  /\ (forall keyeq sl order m, noninit_inputs (dedup_inits keyeq sl order m) = noninit_inputs m)
+  /\ (forall sc u ops fuel m, noninit_inputs (dce sc u ops fuel m) = noninit_inputs m)
+  /\ (forall sl m fresh, noninit_inputs (fst (cse sl m fresh)) = noninit_inputs m)
+  /\ (forall fuel la sl other m fresh, FreshOK m fresh -> noninit_inputs (fst (lift_constants fuel la sl other m fresh)) = noninit_inputs m)
+  /\ (forall scopes m fresh, WF m -> NoOpFunc m -> FreshAll m fresh -> noninit_inputs (fst (output_fix scopes m fresh)) = noninit_inputs m)
+  /\ (forall order m, NoDup (map fst (m_subs m)) -> noninit_inputs (lift_subgraph_inits order m) = noninit_inputs m)
+  /\ (forall m, noninit_inputs (add_inits_to_inputs [GMain] m) = noninit_inputs m)
+  /\ (forall m, noninit_inputs (remove_inits_from_inputs [GMain] m) = noninit_inputs m).
 Proof.
-  intros T a tv i H1 H2 H3 la sl other Hc fuel m fresh HW HN HC HF.
-  exact (pr_comp T a tv i _ _ (lift_constants_pres T a tv i H1 H2 H3 la sl other Hc fuel m fresh HW HN HC HF)).
+  repeat split; intros.
+  - apply identity_elim_signature. - apply dedup_inits_signature. - apply dce_signature. - apply cse_signature.
+  - apply lift_constants_signature_FreshOK; assumption.
+  - destruct (output_fix_signature scopes m fresh) as [_ [A _]]; assumption.
+  - apply lift_subgraph_inits_signature; assumption.
+  - apply add_inits_main_noninit. - apply remove_inits_main_noninit.
 Qed.
-Print Assumptions C05_lift_constants_preserves.
+Print Assumptions C05_passes_signature.
 
-
-(* ---- CommonSubexpressionEliminationPass: ONE merge step (node `rem` removed, its values replaced by those of `keep`).
-   FULL statement (not proved): forall m, Valid m -> computes m env r -> computes (fst (cse size_limit m fresh)) env r.
-   It is FALSE for the code as it exists (C05_cse_key_refuted: the key identifies +0.0/-0.0 and NUL-padded strings).
-   Proved: a merge step preserves the results when the key is faithful on the two nodes' attributes and no value of
-   `rem` is a graph output.  Missing for the whole pass: the loop over the main graph (invariant: `seen` nodes stay in
-   the graph) and the graph-output path (output list rewriting + Identity insertion; see the findings
-   cse-graph-output-type-lost / cse-duplicate-graph-output-identity-names). *)
-Theorem C05_cse_step_preserves_partial :
-  forall (T : Type) (absent : T) tensor_val interp,
-    (forall op attrs subs subs' ins k r, Forall2 (sub_le T) subs subs' -> interp op attrs subs ins k = Some r -> interp op attrs subs' ins k = Some r) ->
-    (forall op attrs subs x, is_identity_op op = true -> interp op attrs subs [x] 1%nat = Some [x]) ->
-    (forall op attrs subs ins k, interp op attrs subs (ins ++ [absent]) k = interp op attrs subs ins k) ->
-    forall m rem keep fresh, WF m -> NoOpFunc m -> In rem (all_nodes m) -> In keep (all_nodes m) -> rem <> keep ->
-    cse_key_eqb keep rem = true ->
-    (forall a b, In a (n_attrs keep) -> In b (n_attrs rem) -> cse_attr_eqb a b = true -> a = b) ->
-    existsb (is_graph_output m) (n_outs rem) = false ->
-    forall env r, env_ok T (formal_of m) env -> computes absent tensor_val interp m env r ->
-                  computes absent tensor_val interp (fst (cse_replace m rem keep fresh)) env r.
-Proof.
-  intros T a tv i H1 H2 H3 m rem keep fresh HW HN Hr Hk Hne Hkey Hf Ho.
-  exact (pr_comp T a tv i _ _ (cse_step_pres T a tv i H1 H2 H3 m rem keep fresh HW HN Hr Hk Hne Hkey Hf Ho)).
-Qed.
-Print Assumptions C05_cse_step_preserves_partial.
-
-(* ---- composition: any sequence of the proved passes *)
+(* ---- composition over all proved passes (Proofs12: pass, apply_pass, extra, seq_ok, Refines, Inv) *)
 Theorem C05_sequence :
   forall (T : Type) (absent : T) tensor_val interp,
     (forall op attrs subs subs' ins k r, Forall2 (sub_le T) subs subs' -> interp op attrs subs ins k = Some r -> interp op attrs subs' ins k = Some r) ->
     (forall op attrs subs x, is_identity_op op = true -> interp op attrs subs [x] 1%nat = Some [x]) ->
     (forall op attrs subs ins k, interp op attrs subs (ins ++ [absent]) k = interp op attrs subs ins k) ->
-    forall ps m, WF m -> NoOpFunc m -> seq_ok ps m ->
-    forall env r, env_ok T (formal_of m) env -> computes absent tensor_val interp m env r ->
-                  computes absent tensor_val interp (fold_left apply_pass ps m) env r.
-Proof. intros T a tv i H1 H2 H3 ps m HW HN Hok. exact (pr_comp T a tv i _ _ (sequence_pres T a tv i H1 H2 H3 ps m HW HN Hok)). Qed.
+    (forall op attrs subs ins k k' outs, (0 < k')%nat -> (k' <= k)%nat -> interp op attrs subs ins k = Some outs ->
+        exists outs', interp op attrs subs ins k' = Some outs' /\ forall j, (j < k')%nat -> nth_error outs' j = nth_error outs j) ->
+    forall other,
+    (forall lift_all size_limit op k name a t subs, is_constant_op op = true -> lift_tensor lift_all size_limit other k name a = Some t ->
+        interp op [(name, a)] subs [] 1%nat = Some [tensor_val t]) ->
+    forall tbl,
+    (forall op attrs aenv subs ins k,
+        interp op (resolve aenv (add_attrs attrs (op_defaults tbl op))) subs ins k = interp op (resolve aenv attrs) subs ins k) ->
+    forall ps m, Inv m -> seq_ok other tbl ps m ->
+    Inv (fold_left (apply_pass other tbl) ps m)
+    /\ Refines T absent tensor_val interp m (fold_left (apply_pass other tbl) ps m).
+Proof. intros T a tv i H1 H2 H3 H4 other H5 tbl H6 ps m HI Hok. exact (sequence_all T a tv i H1 H2 H3 H4 other H5 tbl H6 ps m HI Hok). Qed.
 Print Assumptions C05_sequence.
 
-(* signature and Valid -> Valid for the proved passes and their sequences: main-graph inputs (identities and
-   order, hence the non-initializer inputs: no proved pass removes an initializer that is a graph input), number of
-   outputs, the set of formals, well-formedness and "no function shadows Identity/Constant" *)
-Theorem C05_sequence_signature :
-  forall ps m, WF m -> NoOpFunc m -> seq_ok ps m -> SigKept m (fold_left apply_pass ps m).
-Proof. exact sequence_sig. Qed.
-Print Assumptions C05_sequence_signature.
-
-(* ---- findings: the faithful model violates the statement where the code does *)
 (* 0f568df: the former witness (Identity of an outer-scope value as a subgraph output) is kept: outputs stay local *)
 Theorem C05_identity_elim_outer_scope_witness :
   wfb wit_ident = true /\ outputs_localb wit_ident = true /\ outputs_localb (identity_elim 12 wit_ident) = true.
 Proof. exact ident_valid_witness. Qed.
 Print Assumptions C05_identity_elim_outer_scope_witness.
-
-(* RemoveUnusedNodesPass with the ONNX schema table changes an attribute of a LIVE node (training_mode) *)
-Theorem C05_dce_batchnorm_refuted :
-  exists sc m k, option_map n_attrs (get_node m k) <> option_map n_attrs (get_node (dce sc [] [GMain] 12 m) k)
-                 /\ In k (g_outs (m_main (dce sc [] [GMain] 12 m))).
-Proof.
-  exists wit_dce_schema, wit_dce, 7. destruct dce_batchnorm_refuted as [A [B C]]. rewrite A, B, C. split; [discriminate | left; reflexivity].
-Qed.
-Print Assumptions C05_dce_batchnorm_refuted.
-
-(* af1d2e4: the CSE key is faithful — equal keys are equal (name, type, value) — and the former witnesses differ *)
-Theorem C05_cse_key_faithful : forall a b, cse_attr_eqb a b = true -> a = b.
-Proof. exact cse_attr_eqb_eq. Qed.
-Print Assumptions C05_cse_key_faithful.
-
-Theorem C05_cse_key_distinguishes_attribute_type :
-  cse_attr_eqb ([97], AData TY_INT [1%Z]) ([97], AData TY_FLOAT [4607182418800017408%Z]) = false.
-Proof. exact cse_key_type_sensitive. Qed.
-Print Assumptions C05_cse_key_distinguishes_attribute_type.
